@@ -298,9 +298,14 @@ class Real(object):
     def start(self, task, route, item=-1, delay=0):
         key = (task, route, item)
         first = statuses.RUNNING
-        if self.use_delayed and isinstance(delay, int) and delay > 0:
+        rec0 = self.c.get_task_state_entry(task, route)
+        # acknowledgments are generated for the first action of a fresh execution of a plain task only: for the items
+        # of a with-items task and for retry attempts the task tables have no rows for them (DESIGN.md 0.2)
+        plain_fresh = (item < 0 and self.d["tasks"].get(task, {}).get("items", -1) < 0
+                       and (rec0 is None or rec0.get("status") in statuses.COMPLETED_STATUSES))
+        if plain_fresh and self.use_delayed and isinstance(delay, int) and delay > 0:
             first = statuses.DELAYED
-        elif self.use_delayed == "all":
+        elif plain_fresh and self.use_delayed == "all":
             first = statuses.REQUESTED        # the provider acknowledges the request before the action runs
         rec = self.c.get_task_state_entry(task, route)
         fresh = rec is None or rec.get("status") in statuses.COMPLETED_STATUSES + ["retrying", None]
